@@ -16,7 +16,9 @@ LEVEL = "exploration"
 RULE = ("Hypothesis draws a rectangular table with distinct text field names and, per operator, its arguments: every split "
         "into key vs variable fields (keys unique under ==, possibly None / mixed-type / compound), periods n, field by name "
         "or index, include_original, missing/fill. Oracles: recast(melt(t,key),key) == (key fields + sorted variable fields, "
-        "rows sorted by key under the independent ordering); melt emits exactly nrows x nvars rows in row-major order; "
+        "rows sorted by key under the independent ordering); recast of molten data written directly (sparse, repeated (key, "
+        "variable) pairs, ignored fields, key given / inferred, variables sampled / given as a dict, reducers, missing) == one "
+        "row per key group in key order with, per variable, missing / the value / reducer-or-list of the group's values; melt emits exactly nrows x nvars rows in row-major order; "
         "transpose(transpose(t)) == t; unflatten(flatten(t), n) == data rows of t; pivot cell (r,c) = aggregate of exactly the "
         "rows carrying that pair (dictionary reference); unpack/unpackdict/capture/split/splitdown vs references with all other "
         "fields unchanged; fromdicts(dicts(t)) == t and fromcolumns(columns(t)) == t. Non-trivial = >=2 data rows and >=2 "
@@ -30,7 +32,7 @@ ASSUMPTIONS = [
 
 NAMES = ["k", "j", "a", "b", "c", "d"]
 OPS = ["melt_recast", "melt", "transpose", "flatten", "pivot", "unpack", "unpackdict", "capture", "split", "splitdown",
-       "dicts", "columns"]
+       "dicts", "columns", "recast"]
 KEYCELL = st.one_of(gen.keyish, gen.keyish, gen.hvalue)
 TEXT = st.sampled_from(["ab-12", "x-", "-", "", "a", "ab-12-z", "q1", "12", "AB-1a", "aXbxc", "A"])
 
@@ -74,6 +76,25 @@ def case(draw, tier):
         c["table"] = draw(gen.table(list(hdr), [cell] * nf, max_rows=maxrows, min_rows=1 if op == "dicts" else 0))
         c["missing"] = draw(st.sampled_from([None, "M", None, "M", 0, "", False]))
         c["period_delta"] = draw(st.sampled_from([0, 0, 1, -1]))
+    elif op == "recast":
+        # molten data written directly: sparse (not every key has every variable), repeated (key, variable) pairs,
+        # fields that are neither key nor variable nor value, variables that first occur late
+        nk = draw(st.sampled_from([1, 2, 1]))
+        mn = draw(st.sampled_from([["variable", "value"], ["variable", "value"], ["vars", "vals"]]))
+        keyn = ["k1", "k2"][:nk]
+        hdr = draw(st.permutations(keyn + mn))
+        kp = draw(gen.pool(KEYCELL, 2, 4))
+        vp = draw(st.lists(st.sampled_from(["age", "gender", "w", "", "a b"]), min_size=1, max_size=3, unique=True))
+        n = draw(gen.sizes(0, maxrows + 3))
+        cols = {"k1": st.sampled_from(kp), "k2": st.sampled_from(kp), mn[0]: st.sampled_from(vp), mn[1]: st.integers(0, 9)}
+        c["table"] = [list(hdr)] + [[draw(cols[f]) for f in hdr] for _ in range(n)]
+        c["key"] = keyn
+        c["molten_names"] = mn
+        c["keyform"] = draw(st.sampled_from(["names", "none", "single", "subset"]))
+        c["reducers"] = draw(st.sampled_from([None, None, {"age": "sum"}, {"age": "max", "w": "len", "gender": "sum", "": "min"}]))
+        c["missing"] = draw(st.sampled_from([None, "NA", 0]))
+        c["samplesize"] = draw(st.one_of(st.none(), st.none(), st.integers(1, max(1, n))))
+        c["vardict"] = draw(st.permutations(vp + ["absent"]))[:draw(st.integers(1, len(vp) + 1))] if draw(st.integers(0, 3)) == 0 else None
     elif op == "pivot":
         hdr = ["r", "c", "v"] + list(draw(st.lists(st.sampled_from(["x", "y"]), max_size=1)))
         hdr = draw(st.permutations(hdr))
@@ -164,6 +185,57 @@ def check(case, ctx):
                 exp_b = [tuple(key) + tuple(hdr[i] for i in vsorted)] + [tuple(r[i] for i in kidx) + tuple(r[i] for i in vsorted) for r in srt]
                 if not codec.strict_eq(back, exp_b):
                     return fail("recast", back, exp_b)
+        elif op == "recast":
+            mn = case["molten_names"]
+            key = list(case["key"])
+            form = case["keyform"]
+            if form == "subset" and len(key) == 2:
+                key = key[:1]
+            kw = {}
+            if mn != ["variable", "value"] or len(rows) % 2:
+                kw.update(variablefield=mn[0], valuefield=mn[1])
+            if form == "none":
+                key = [f for f in hdr if f not in mn]      # documented: every field that is not variable / value
+            else:
+                kw["key"] = key[0] if (form == "single" and len(key) == 1) else key
+            vi, xi = hdr.index(mn[0]), hdr.index(mn[1])
+            if case.get("vardict"):
+                variables = list(case["vardict"])
+                kw["variablefield"], kw["valuefield"] = {mn[0]: variables}, mn[1]
+                ctx.label("variables-given")
+            else:
+                ss = case.get("samplesize")
+                if ss is not None:
+                    kw["samplesize"] = ss
+                    ctx.label("samplesize")
+                variables = sorted(set(r[vi] for r in (rows if ss is None else rows[:ss])))
+            RED = {"sum": sum, "max": max, "len": len, "min": min}
+            red = dict((k, RED[v]) for k, v in (case.get("reducers") or {}).items())
+            if case.get("reducers"):
+                kw["reducers"] = red
+            if case.get("missing") is not None:
+                kw["missing"] = case["missing"]
+            got = _T(etl.recast(T, **kw))
+            kidx = [hdr.index(f) for f in key]
+            exp = [tuple(key) + tuple(variables)]
+            sparse = repeated = False
+            for _, grp in R.ref_groups([hdr] + [list(r) for r in rows], key):
+                out = [grp[0][i] for i in kidx]
+                for var in variables:
+                    vals = [r[xi] for r in grp if r[vi] == var]
+                    if not vals:
+                        sparse = True
+                        out.append(case.get("missing"))
+                    elif len(vals) == 1:
+                        out.append(vals[0])
+                    else:
+                        repeated = True
+                        out.append(red.get(var, list)(vals))
+                exp.append(tuple(out))
+            ctx.label("sparse" if sparse else "dense", "repeated" if repeated else "single-valued")
+            ctx.nontrivial(len(exp) >= 3 and len(variables) >= 2 and (sparse or repeated))
+            if not codec.strict_eq(got, exp):
+                return fail("recast", got, exp)
         elif op == "transpose":
             tt = _T(etl.transpose(etl.transpose(T)))
             exp = [tuple(hdr)] + rows
